@@ -221,6 +221,7 @@ func (w *worker) runBatch(unit int, items []item, ul *unitLine) {
 		o, a = w.g.confirmAlloc(it.run)
 		if !o.bad() && a > allocBound(it.n) {
 			it.fail("alloc", o, a)
+			w.skip[it.key] = true // the class is reported; its further cases would each cost three measured runs
 		}
 	}
 }
@@ -334,9 +335,18 @@ func (w *worker) myRoots() []jroot {
 
 // jsonKey: the innermost function of core on the panic stack names the failing entry point most narrowly;
 // without a stack (allocation, hang) the root type and the place in the document do.
-func jsonKey(entry, root, where, class string, o outcome) string {
+func jsonKey(entry, root, leaf, where, class string, o outcome) string {
 	if site := panicSite(o.Stack); site != "" {
 		return entry + "/" + site + "/" + class
+	}
+	return jsonSkipKey(entry, root, leaf, where, class)
+}
+
+// jsonSkipKey: the type that receives the corrupted node and the corruption class; the root type and the place in the
+// document when that type is not known.
+func jsonSkipKey(entry, root, leaf, where, class string) string {
+	if leaf != "" {
+		return entry + "/" + leaf + "/" + class
 	}
 	return entry + "/" + root + "/" + where + "/" + class
 }
@@ -380,14 +390,14 @@ func (w *worker) jsonUnit(u int, rt jroot, first int) {
 			entry = "json-direct"
 			run = func() error { return reflect.New(rt.T).Interface().(json.Unmarshaler).UnmarshalJSON(jc.Doc) }
 		}
-		skipKey := entry + "/" + rt.Name + "/" + jc.Where + "/" + jc.Class
+		skipKey := jsonSkipKey(entry, rt.Name, jc.Leaf, jc.Where, jc.Class)
 		if w.skip[skipKey] {
 			ul.Skipped++
 			return true
 		}
 		items = append(items, item{idx: i, key: skipKey, n: len(jc.Doc), class: jc.Class, run: run,
 			fail: func(kind string, o outcome, alloc uint64) {
-				key := jsonKey(entry, rt.Name, jc.Where, jc.Class, o)
+				key := jsonKey(entry, rt.Name, jc.Leaf, jc.Where, jc.Class, o)
 				doc := string(jc.Doc)
 				if len(doc) > 1<<17 {
 					doc = doc[:1<<17] + "...(truncated)"
@@ -430,7 +440,7 @@ func (w *worker) textUnit(u int, rt jroot, first int) {
 		items = append(items, item{idx: i, key: skipKey, n: len(tc.Text), class: tc.Class,
 			run: func() error { return reflect.New(rt.T).Interface().(encoding.TextUnmarshaler).UnmarshalText(tc.Text) },
 			fail: func(kind string, o outcome, alloc uint64) {
-				key := jsonKey("text", rt.Name, "-", tc.Class, o)
+				key := jsonKey("text", rt.Name, "", "-", tc.Class, o)
 				txt := string(tc.Text)
 				if len(txt) > 1<<17 {
 					txt = txt[:1<<17] + "...(truncated)"
@@ -549,7 +559,7 @@ func caseDescription(j job, cat *catalogue, unit, cs int) (key, what string, pay
 				if jc.Direct {
 					entry = "json-direct"
 				}
-				key = entry + "/" + rt.Name + "/" + jc.Where + "/" + jc.Class
+				key = jsonSkipKey(entry, rt.Name, jc.Leaf, jc.Where, jc.Class)
 				what = fmt.Sprintf("%s of %s on %s %s at %s (%d bytes)", entry, rt.Name, jc.Class, jc.Variant, jc.Where, len(jc.Doc))
 				payload = map[string]any{"entry": entry, "type": rt.Name, "case": i, "class": jc.Class, "variant": jc.Variant, "where": jc.Where, "document_hex": capHex(jc.Doc)}
 				return false
